@@ -259,6 +259,9 @@ func (r *runner) hasJSONIndex() bool {
 // writeFailure classifies an error of a write on the indexed twin that is not a unique rejection.
 func (r *runner) panicFailure(what string, jsonNil bool, pe *panicErr) *hx.Failure {
 	site := hx.PanicSite(pe.stack)
+	if i := strings.LastIndex(what, ") with "); strings.HasPrefix(what, "partial-document update") && i >= 0 && !strings.Contains(what[i:], `"j":`) {
+		jsonNil = true // the document handed to the index does not carry the JSON field
+	}
 	if jsonNil && strings.Contains(pe.stack, "JSONFieldGenerator") {
 		return hx.Failf(sigJSONNullPanic, "%s with j: null while a JSON index exists panics in %s: %v", what, site, pe.val)
 	}
